@@ -17,6 +17,8 @@ pub enum Cmd {
     GoMovetime(u64),
     GoClock(u64, u64, u64, u64),
     GoInfinite,
+    /// any other `go ...` text that ends by itself (depth and/or time given)
+    GoRaw(String),
     Stop,
     Wait,
     /// wait (without sending anything) for the outstanding bounded search to announce its move
@@ -43,6 +45,7 @@ impl Cmd {
             Cmd::GoMovetime(m) => format!("go movetime {m}"),
             Cmd::GoClock(w, b, wi, bi) => format!("go wtime {w} btime {b} winc {wi} binc {bi}"),
             Cmd::GoInfinite => "go infinite".into(),
+            Cmd::GoRaw(s) => s.clone(),
             Cmd::Stop => "stop".into(),
             Cmd::Wait => "wait".into(),
             Cmd::Await => "(await bestmove)".into(),
@@ -58,6 +61,7 @@ impl Cmd {
             Cmd::GoMovetime(m) => json!({"go_movetime": m}),
             Cmd::GoClock(w, b, wi, bi) => json!({"go_clock": [w, b, wi, bi]}),
             Cmd::SleepMs(ms) => json!({"sleep_ms": ms}),
+            Cmd::GoRaw(s) => json!({"go_raw": s}),
             other => json!(other.text()),
         }
     }
@@ -87,6 +91,9 @@ impl Cmd {
         }
         if let Some(a) = v.get("go_clock").and_then(|a| a.as_array()) {
             return Some(Cmd::GoClock(a[0].as_u64()?, a[1].as_u64()?, a[2].as_u64()?, a[3].as_u64()?));
+        }
+        if let Some(d) = v.get("go_raw") {
+            return Some(Cmd::GoRaw(d.as_str()?.to_string()));
         }
         if let Some(d) = v.get("sleep_ms") {
             return Some(Cmd::SleepMs(d.as_u64()?));
@@ -380,7 +387,7 @@ pub fn run_script(script: &Script, tag: &str, watchdog: Duration) -> SessionResu
                     }
                 }
             }
-            Cmd::GoDepth(_) | Cmd::GoMovetime(_) | Cmd::GoClock(..) | Cmd::GoInfinite => {
+            Cmd::GoDepth(_) | Cmd::GoMovetime(_) | Cmd::GoClock(..) | Cmd::GoInfinite | Cmd::GoRaw(_) => {
                 if r.model.outstanding.is_some() {
                     continue;
                 }
